@@ -282,12 +282,42 @@ func runC13(c *eng.Ctx) {
 				r6.Bad(construct, call.Pos(), "the error of the cluster call is assigned to _")
 				return true
 			}
+			// the variable, or a variable it is handed over to (t = err, t = wrap(err)), reaches a return
+			carriers := map[types.Object]bool{ev: true}
+			for changed := true; changed; {
+				changed = false
+				ast.Inspect(f.Decl.Body, func(x ast.Node) bool {
+					as2, isA := x.(*ast.AssignStmt)
+					if !isA || as2.Pos() < call.Pos() || len(as2.Lhs) != len(as2.Rhs) {
+						return true
+					}
+					for i, l := range as2.Lhs {
+						lo := eng.SelObj(info, l)
+						if lo == nil || carriers[lo] {
+							continue
+						}
+						if _, isId := ast.Unparen(l).(*ast.Ident); !isId {
+							continue
+						}
+						for co := range carriers {
+							if eng.UsesObj(info, as2.Rhs[i], co, true) {
+								carriers[lo] = true
+								changed = true
+								break
+							}
+						}
+					}
+					return true
+				})
+			}
 			returned := false
 			ast.Inspect(f.Decl.Body, func(x ast.Node) bool {
 				if r, isR := x.(*ast.ReturnStmt); isR && r.Pos() > call.Pos() {
 					for _, res := range r.Results {
-						if eng.UsesObj(info, res, ev, true) {
-							returned = true
+						for co := range carriers {
+							if eng.UsesObj(info, res, co, true) {
+								returned = true
+							}
 						}
 					}
 				}
